@@ -22,6 +22,7 @@ from ..models.spec_model import Spec, snake_case
 
 ID = "C20"
 LEVEL = "exploration"
+SELFTEST_N = 32
 BATCH = 1
 DOUBLE_EVERY = 29
 TASK_LIMIT_S = 1800
